@@ -65,9 +65,22 @@ class Obligation:
         -> dict(real_ok: bool, lifted_matches: bool, detail: ..., finding: id|None)"""
         return {"real_ok": verdict_ok, "lifted_matches": True, "detail": "no replay defined", "unreplayed": True}
 
+    twin_cap = 6   # the twin is existential: explore until one path reports the perturbation, at most this many paths
+
     def twin(self):
-        """reachability twin: must return True on at least one path (harness is not vacuous); None = skip"""
-        return None
+        """sensitivity twin: the harness body runs with the implementation's first observation perturbed the way a wrong
+        implementation would be (lx.lifted._perturb, or a class-specific perturbation reading lx.lifted.TWIN).
+        -> True: this path's assertion reported it; False: it did not; None: nothing was perturbed on this path"""
+        from . import lifted
+
+        lifted.TWIN["on"], lifted.TWIN["n"], lifted.TWIN["armed"] = True, 0, True
+        try:
+            v = self.body()
+        finally:
+            lifted.TWIN["on"] = False
+        if not lifted.TWIN["n"]:
+            return None
+        return not v.ok
 
 
 # ---------------------------------------------------------------------------------------------
@@ -215,17 +228,40 @@ def _run_one(key):
             elif not results:
                 out["status"] = "harness_error"
                 out["error"] = "no feasible path (vacuous harness)"
-        # reachability twin
-        if out["status"] in ("holds",) and getattr(ob, "twin_enabled", False):
-            eng2 = Engine(max_paths=ob.max_paths, deadline=t0 + ob.budget_s, label=key + "/twin")
-            res2 = eng2.explore(ob.twin)
-            reached = any(r.status == "ok" and r.value is True for r in res2)
-            out["twin"] = bool(reached)
-            out["queries"] += eng2.stats["queries"]
-            out["solver_s"] = round(out["solver_s"] + eng2.stats["solver_s"], 3)
-            if not reached:
+        # vacuity guards.  (1) reachability: at least one path must have reached the property assertion with a result.
+        # (2) sensitivity twin: with the implementation's observation perturbed, some path must come back "violated".
+        if out["status"] == "holds" and results and not out["nontrivial"] and not getattr(ob, "vacuous_ok", False):
+            out["status"] = "harness_error"
+            out["error"] = "no path reached the property assertion (vacuous harness)"
+        if out["status"] == "holds" and os.environ.get("LX_TWIN", "1") != "0":
+            eng2 = Engine(max_paths=8 * ob.twin_cap + 1, deadline=time.time() + min(120, ob.budget_s), label=key + "/twin")
+            seen = {"n": 0, "applied": 0}
+
+            def stop(r, seen=seen):
+                # paths on which nothing was perturbed (the harness left the comparison out there) do not count towards the cap
+                seen["n"] += 1
+                seen["applied"] += 1 if (r.status == "ok" and r.value is not None) else 0
+                return (r.status == "ok" and r.value is True) or seen["applied"] >= ob.twin_cap or seen["n"] >= 8 * ob.twin_cap
+
+            try:
+                res2 = eng2.explore(ob.twin, stop=stop)
+            except HarnessError as e:
+                res2 = []
+                out["twin"] = "error: %s" % (e,)
+            applied = [r for r in res2 if r.status == "ok" and r.value is not None]
+            if any(r.value is True for r in applied):
+                out["twin"] = "reported"
+            elif applied:
+                out["twin"] = "missed"
                 out["status"] = "harness_error"
-                out["error"] = "reachability twin not reached: harness is vacuous"
+                out["error"] = "sensitivity twin: a perturbed observation was not reported on any of %d path(s): the " \
+                               "assertion of this harness instance is vacuous" % len(applied)
+            elif out["twin"] is None:
+                out["twin"] = "n/a"
+            out["queries"] += eng2.stats["queries"]
+            out["sat"] += eng2.stats["sat"]
+            out["unsat"] += eng2.stats["unsat"]
+            out["solver_s"] = round(out["solver_s"] + eng2.stats["solver_s"], 3)
         if not out["samples"] and results:
             r = results[0]
             if r.status == "ok":
@@ -289,7 +325,7 @@ def run_check(modname, tier, seed, jobs=None, only=None, verbose=False):
             if verbose:
                 print("  [%s] %-9s paths=%d q=%d solver=%.1fs wall=%.1fs %s" % (
                     r["key"], r["status"], r["paths"], r["queries"], r["solver_s"], r["wall_s"],
-                    (r["error"] or "")[:300]), flush=True)
+                    ("twin=%s " % r.get("twin")) + (r["error"] or "")[:300]), flush=True)
         pool.close()
         pool.join()
     finally:
@@ -379,6 +415,7 @@ def write_evidence(mod, pid, tier, seed, results, wall, nviol, known_seen, harne
             "solver_s": round(tot("solver_s"), 2),
             "inconclusive": sum(len(r["inconclusive"]) for r in results),
             "cross_solver_checked": sum(r.get("cross_checked", 0) for r in results),
+            "sensitivity_twins": {k: sum(1 for r in results if r.get("twin") == k) for k in ("reported", "missed", "n/a")},
             "harness_errors": [{"obligation": r["key"], "error": (r["error"] or "")[:400]} for r in harness[:10]],
             "known_findings_seen": known_seen,
             "functions_encoded": covered,
